@@ -13,7 +13,7 @@ from matched_markets.methodology.tbrmmdata import TBRMMData
 
 ID = 'C15'
 LEVEL = 'exploration'
-RULE = ('Engine A: (a) frames over G x T in {2x2, 3x2, 2x3 | + 3x3} with EVERY present/absent pattern of the G*T cells '
+RULE = ('Engine A: (a) frames over G x T in {2x2, 3x2, 2x3 | + 3x3} with EVERY present/absent pattern of the G*T cells (and, for 2x2 / 3x2, every pattern over {observed, absent, present-with-NaN-response}) '
         '(distinct integer values, plus a tied-means variant), ID dtype int/str (+ object column of ints, mixed int/str object column, float, categorical), 3 row orders, no eligibility; (b) 3-geo '
         'frames with EVERY eligibility table over {absent + 7 row types}^3 (512), with and without an extra matrix geo '
         'that is not in the data (cx / ctx excludable, c_fixed / ct not excludable), and with a data geo missing, and with the caller\'s eligibility object already used by ANOTHER data object (panel lacking a geo, other ranking); for '
@@ -44,6 +44,12 @@ def cases(tier, seed):
             for idt, order in (('int', 'id'), ('str', 'rev'), ('int', 'mix')) if G * T <= 6 else (('int', 'mix'),):
                 out.append({'G': G, 'T': T, 'mask': list(mask), 'ids': idt, 'order': order, 'elig': None, 'vals': 'distinct'})
     out.append({'G': 3, 'T': 3, 'mask': [1] * 9, 'ids': 'int', 'order': 'mix', 'elig': None, 'vals': 'tied'})
+    # a missing cell may also be GIVEN: a row whose response is NaN (every pattern over {observed, absent, NaN} for 2x2 and
+    # 3x2 cells with at least one NaN row and one observed cell)
+    for G, T in ((2, 2), (3, 2)):
+        for mask in itertools.product([0, 1, 2], repeat=G * T):
+            if 2 in mask and 1 in mask:
+                out.append({'G': G, 'T': T, 'mask': list(mask), 'ids': 'int', 'order': 'mix' if sum(mask) % 2 else 'id', 'elig': None, 'vals': 'distinct'})
     # ID column presentations: object column of ints, mixed int/str object column, float IDs, categorical
     for idt in ('objint', 'mixed', 'float', 'category'):
         for G, T in ((2, 2), (3, 2)):
@@ -77,8 +83,11 @@ def run_case(case):
     G, T = case['G'], case['T']
     V = VAL if case['vals'] == 'distinct' else VAL_TIED
     cells = [(g, t) for g in range(G) for t in range(T)]
-    present = [c for c, m in zip(cells, case['mask']) if m]
+    present = [c for c, m in zip(cells, case['mask']) if m == 1]
+    nan_cells = [c for c, m in zip(cells, case['mask']) if m == 2]      # a missing cell given as a row whose response is NaN
     rows = [(DATES[t], g, float(V[(g, t)])) for g, t in present]
+    ref_rows = list(rows)
+    rows = rows + [(DATES[t], g, float('nan')) for g, t in nan_cells]
     if case['order'] == 'rev':
         rows = rows[::-1]
     elif case['order'] == 'mix':
@@ -94,6 +103,7 @@ def run_case(case):
         geo_col = pd.Series([str(g) for g in geo_col]).astype('category')
     df = pd.DataFrame({'date': pd.to_datetime([r[0] for r in rows]), 'geo': geo_col, 'resp': [r[2] for r in rows]})
     before = df.copy(deep=True)
+    rows = ref_rows         # the reference sees the observed cells only: a NaN response is a missing cell
     if case['ids'] == 'float':
         rows = [(r[0], float(r[1]), r[2]) for r in rows]
     dates, tab = rpanel.table(rows)
